@@ -100,7 +100,17 @@ def run(m: Model, r: Report, tier: str) -> None:
             raise AnalysisError(f"{fq}: call to {callee_suffix} not found")
         for c in calls:
             passed = {ast.unparse(a) for a in c.args} | {ast.unparse(k.value) for k in c.keywords}
+            bound = tr.bind_call(m, f, c)
             for label, expr in wanted.items():
+                if bound is not None and label in bound:
+                    r.check(ast.unparse(bound[label]) == expr, "R4", f"{fq}#{label}",
+                            f"parameter {label} of {callee_suffix} receives `{ast.unparse(bound[label])}`, not `{expr}`", loc=f"{f.module.relpath}:{c.lineno}")
+                    continue
+                if bound is not None and tr.callee_param_names(m, f, c) and label in tr.callee_param_names(m, f, c):
+                    r.check(False, "R4", f"{fq}#{label}",
+                            f"parameter {label} of {callee_suffix} is not passed: `{expr}` ends up in {[k for k, v in bound.items() if ast.unparse(v) == expr] or 'no'} "
+                            "parameter and the callee's default is used instead of the configured value", loc=f"{f.module.relpath}:{c.lineno}")
+                    continue
                 r.check(expr in passed, "R4", f"{fq}#{label}",
                         f"{label} is not passed on unaltered to {callee_suffix} (arguments: {sorted(passed)}): a coercion (e.g. an Enum with "
                         "_missing_) changes values the user configured", loc=f"{f.module.relpath}:{c.lineno}")
@@ -198,6 +208,8 @@ def run(m: Model, r: Report, tier: str) -> None:
         isinstance(branches[0].body[-1], ast.Continue)
     r.check(ok11, "R11", f"{rw.qualname}#alive-branch", "alive check requests must be answered in the reader task and not queued", loc=rw.loc)
     tr.reader_loop_total(r, "R11", rw, ("self._read_queue.put(", "self._diagnostic_message_queue.put(", "self.write_alive_check_response("))
+    tr.queues_unbounded(m, r, "R11", conn, rw)
+    tr.match_subject_total(m, r, "R11", m.require_function(f"{DOIP}.DoIPConnection._read_frame"))
     ac = m.require_function(f"{DOIP}.DoIPConnection.write_alive_check_response")
     r.check(any(isinstance(n, ast.Call) and ast.unparse(n.func) == "AliveCheckResponse" and
                 any(ast.unparse(k.value) == "self.src_addr" for k in n.keywords) for n in ast.walk(ac.node)), "R11",
